@@ -187,6 +187,18 @@ def check(prop, tier):
     run_harness("sess", ["random", s + 104729, nlong, 900, 0 if prop == "C05" else 60, 0, long_cases, 70], part)
     os.system(f"cat {part} >> {trace}")
     allcases.update(load_cases(long_cases))
+    # everything sent before anything is collected: 33 / 40 / 70 calls of rpc() with no reply future polled in between,
+    # the server answers them all (three orders); no call of rpc() may wait for the caller to collect earlier replies
+    burst = os.path.join(wd, "burst.cases")
+    with open(burst, "w") as f:
+        for n in (33, 40, 70):
+            for order in ("fifo", "lifo", "odd-even"):
+                cmds = [{"c": "nomodel"}] + [{"c": "rpc", "good": True}] * n + [{"c": "answerall", "order": order}, {"c": "pollc"}, {"c": "pollc"},
+                                                                         {"c": "stuckcheck"}, {"c": "finish"}]
+                f.write(json.dumps({"case": f"burst{n}-{order}", "cmds": cmds}) + "\n")
+    run_harness("sess", ["replay", burst], part)
+    os.system(f"cat {part} >> {trace}")
+    allcases.update(load_cases(burst))
     nstress = 0
     if prop == "C05":
         nstress = 5000 if thorough else 400
